@@ -1,6 +1,7 @@
 SPECIFICATION Spec
 CONSTANTS MaxFills = 1
-  Weights <- W3
+  Weights <- W4
+  Twin = FALSE
   EdgeChoices <- EdgesExport
 INVARIANT HistoryRef
 INVARIANT Emitted
